@@ -316,6 +316,11 @@ def run(rep):
              'fails with TypeError there, so no path may hand the owner to a callee '
              'without having established it non-NULL (a NULL owner otherwise '
              'crashes the interpreter where the reference raises)', floor=2)
+    rep.rule('F12', 'adapter hooks may change adapter_hooks while __adapt__ walks it: '
+             'the Python twin iterates the live list, the C twin must bound its '
+             'index by the current size and hold each hook across its call (a stale '
+             'bound crashes the interpreter where the reference continues; shared '
+             'with C14 R14.7)', floor=1)
     rep.decline('equality of results, exception points and subsequent '
                 'behaviour for arbitrary API programs (that is differential '
                 'execution; only the structural core is decided)')
@@ -453,6 +458,7 @@ def run(rep):
     from . import csem as _csem
     _csem.object_specification_twins(rep, 'F10', u, repo.module('declarations.py'))
     _csem.descr_get_owner(rep, 'F11', u)
+    _csem.hook_walk(rep, 'F12', u)
 
     # ---- F6 / F7 -------------------------------------------------------------------
     from . import C12 as c12
